@@ -124,16 +124,21 @@ let run () =
          (* an alternation of terms of atoms: make_alt over make_cat *)
          let rec alts r = (match r with RAlt (a, b) -> a :: alts b | y -> [y]) in
          let term r = (match r with REmpty -> [] | y -> flat y) in
-         let tl = List.map term (alts r) in
-         let nodes = List.map (fun t -> List.map atom_node t) tl in
-         if List.for_all (List.for_all (fun o -> o <> None)) nodes then begin
+         (* a factor that is an alternation is a non-capturing group (the generator never puts one alone in a term) *)
+         let rec group_node r : node option =
+           (let ts = List.map term (alts r) in
+            let fs = List.map (fun t -> List.map (fun x -> match x with RAlt (_, _) -> group_node x | y -> atom_node y) t) ts in
+            if List.for_all (List.for_all (fun o -> o <> None)) fs then begin
+              let ns = List.map (fun t -> make_cat (List.map (fun o -> match o with Some m -> m | None -> NEmpty) t)) fs in
+              Some (make_alt (nat_of_int (List.length ns + 1)) ns) end
+            else None) in
+         (match group_node r with
+          | None -> ()
+          | Some m ->
            incr altn;
-           let ns = List.map (fun t -> make_cat (List.map (fun o -> match o with Some m -> m | None -> NEmpty) t)) nodes in
-           let m = make_alt (nat_of_int (List.length ns + 1)) ns in
            if m <> x then begin
              incr mism;
-             Printf.printf "MISMATCH stage=S1-alt case=%s pat=%s flags=%s detail=model-of-make_alt/make_cat-differs\n" !id !pat !flags end
-         end
+             Printf.printf "MISMATCH stage=S1-alt case=%s pat=%s flags=%s detail=model-of-make_alt/make_cat-differs\n" !id !pat !flags end)
        | Some r, NCat [NCat body; NGoal] ->
          let rs = flat r in
          let n = List.length rs in
